@@ -325,6 +325,9 @@ def write_replay(prop, variant, tier, seed, cls, detail, plan_text, minimised_no
     return path
 
 
+CORPUS = {'n': 0}
+
+
 def cmd_check(prop, tier, budget_s, nworkers, variants, base_seed):
     t0 = time.time()
     known = load_known()
@@ -400,6 +403,23 @@ def cmd_check(prop, tier, budget_s, nworkers, variants, base_seed):
                 note = 'minimised plan did not reproduce in a fresh process; original plan kept'
         path = write_replay(prop, first['variant'], tier, first['seed'], first['cls'], first['detail'], final_plan, note, first['hash'], first['idx'])
         violations_out.append((first, path, len(lst)))
+    # ---- regression corpus: the stored replays of repaired defects ("fixed" entries suppress nothing) must stay clean
+    corpus_n = 0
+    if not os.environ.get('VERIF_SKIP_CORPUS'):
+        import glob
+        files = sorted(glob.glob(os.path.join(ROOT, 'replays', f'fixed-{prop}-*')))
+        def one(fp):
+            plan = load_plan_file(fp)
+            return fp, replay_plan(exes[variants[0]], plan, tier)
+        from concurrent.futures import ThreadPoolExecutor
+        with ThreadPoolExecutor(max_workers=max(1, nworkers)) as ex:
+            for fp, (c, h, d) in ex.map(one, files):
+                corpus_n += 1
+                bad = [x for x in sorted(c) if not match_known(known, prop, x, d.get(x, ''))]
+                if bad:
+                    first = {'seed': 'corpus', 'idx': -1, 'cls': bad[0], 'detail': d.get(bad[0], ''), 'variant': variants[0], 'hash': h}
+                    violations_out.append((first, fp, 1))
+    CORPUS['n'] = corpus_n
     # ---- confirm open known findings that have stored replays (small separate quota)
     confirmed = []
     for k in known:
@@ -416,8 +436,11 @@ def cmd_check(prop, tier, budget_s, nworkers, variants, base_seed):
                 c, h, d = replay_plan(exe, plan, tier)
                 if any(re.search(k['match'].get('cls', '.*'), x) for x in c):
                     confirmed.append(k)
+    by_id = {}
     for k, first, n in known_out:
-        print(f'KNOWN-FINDING: property={prop} {k["id"]}: {k["description"]} (seen {n}x, e.g. seed {first["seed"]}: {first["cls"]} {first["detail"][:160]})')
+        e = by_id.setdefault(k['id'], [k, first, 0, []]); e[2] += n; e[3].append(first['cls'])
+    for k, first, n, classes in by_id.values():
+        print(f'KNOWN-FINDING: property={prop} {k["id"]}: {k["description"]} (seen {n}x as {",".join(sorted(set(classes)))}; e.g. seed {first["seed"]}: {first["detail"][:160]})')
     for k in confirmed:
         print(f'KNOWN-FINDING: property={prop} {k["id"]}: {k["description"]} (stored replay {k["replay"]} still fails)')
     for first, path, n in violations_out:
@@ -481,6 +504,7 @@ def write_evidence(prop, tier, seed, results, crashes, violations, known_out, wa
             'components': {'real': ['src/*.c of /repo incl. backend_posix.c (unmodified except JLS_VERIF hooks)'],
                            'stub': ['open/close/read/write/lseek/fsync/ftruncate -> SimFS', 'pthread_* -> cooperative scheduler', 'clock_gettime/nanosleep -> virtual clock', 'malloc/calloc/realloc/free -> accounting allocator']},
             'known_findings_printed': [k['id'] for k, _, _ in known_out],
+            'regression_corpus_replays': CORPUS['n'],
         },
         'assumptions': ASSUMPTIONS, 'wall_s': round(wall, 2), 'violations': len(violations),
     }
